@@ -17,6 +17,13 @@ FrameOf(r) == [index |-> <<<<"i", 0>>, <<"i", 1>>>>, columns |-> ColLab, name |-
                cols |-> [j \in 1..N |-> [dt |-> DtF64, vals |-> <<r[j], r[N + 1 - j]>>]]]
 SerOf(r) == [index |-> ColLab, vals |-> r, dt |-> DtF64, name |-> None]
 
+(* the same row with its FIRST column replaced by a never-missing column (a complete block ahead of incomplete ones), and   *)
+(* label-aligned fill values: all labels permuted; a proper subset of the columns / rows; an extra unknown label              *)
+MixedOf(r) == [FrameOf(r) EXCEPT !.cols[1] = [dt |-> DtF64, vals |-> <<<<"f", 7, 1>>, <<"f", 8, 1>>>>]]
+FV(j, i) == <<"f", 100 * j + 10 * i, 1>>
+FillFrames ==
+  { [index |-> <<<<"i", 1>>, <<"i", 0>>>>, columns |-> RevSeq(ColLab), cols |-> [j \in 1..N |-> [dt |-> DtF64, vals |-> <<FV(N + 1 - j, 2), FV(N + 1 - j, 1)>>]]],
+    [index |-> <<<<"i", 0>>>>, columns |-> <<ColLab[N], <<"s", "zz">>, ColLab[2]>>, cols |-> <<[dt |-> DtF64, vals |-> <<FV(N, 1)>>], [dt |-> DtF64, vals |-> <<FV(9, 1)>>], [dt |-> DtF64, vals |-> <<NaN>>]>>] }
 Pending == [k |-> "pending"]
 InitCases ==
   \/ \E r \in Rows, l \in Layouts, fwd \in BOOLEAN, lim \in 0..N :
@@ -30,6 +37,7 @@ InitCases ==
   \/ \E r \in Rows, l \in Layouts, ax \in {0, 1} : cs = [op |-> "f_count", f |-> FrameOf(r), layout |-> l, axis |-> ax]
   \/ \E r \in Rows, l \in Layouts, neg \in BOOLEAN : cs = [op |-> "f_isna", f |-> FrameOf(r), layout |-> l, neg |-> neg]
   \/ \E r \in Rows, fwd \in BOOLEAN, lim \in 0..2 : cs = [op |-> "f_filldir", f |-> FrameOf(r), layout |-> [j \in 1..N |-> <<1, 1>>], forward |-> fwd, limit |-> lim, axis |-> 0]
+  \/ \E r \in Rows, l \in Layouts, v \in FillFrames : cs = [op |-> "f_fillna_frame", f |-> MixedOf(r), layout |-> l, val |-> v]
 Init == InitCases /\ res = Pending
 Call == res.k = "pending" /\ res' = Apply(cs) /\ UNCHANGED cs
 Next == Call
@@ -52,6 +60,15 @@ LimitRespected ==
         \E j \in 1..N : /\ ~IsNA(cs.s.vals[j]) /\ res.vals[i] = cs.s.vals[j]
                         /\ (IF cs.forward THEN j < i /\ i - j <= cs.limit ELSE j > i /\ j - i <= cs.limit)
                         /\ \A k \in (IF cs.forward THEN (j + 1)..i ELSE i..(j - 1)) : IsNA(cs.s.vals[k])
+(* a fill from a labelled Frame touches missing cells only, and puts there exactly the value's cell for the same labels *)
+FillFrameExact ==
+  (Done /\ cs.op = "f_fillna_frame") =>
+     \A j \in 1..N, i \in 1..2 :
+        LET old == cs.f.cols[j].vals[i]
+            pc == Find(cs.val.columns, cs.f.columns[j])
+            pr == Find(cs.val.index, cs.f.index[i])
+        IN IF ~IsNA(old) \/ pc < 0 \/ pr < 0 THEN res.cols[j].vals[i] = LooseVal(old)
+           ELSE res.cols[j].vals[i] = LooseVal(At(At(cs.val.cols, pc).vals, pr))
 SidedOnlyEdge ==
   (Done /\ cs.op = "s_fillsided") => \A i \in 1..N : res.vals[i] # cs.s.vals[i] =>
         (IF cs.leading THEN \A j \in 1..i : IsNA(cs.s.vals[j]) ELSE \A j \in i..N : IsNA(cs.s.vals[j]))
